@@ -41,7 +41,7 @@ def verify():
             d, r, _ = prog.callee_of(t)
             if is_raw_fs_call(r or d or "", d or ""):
                 raw.append(fn.name)
-    if sorted(raw) != ["make_all", "raw_fs", "split_helper"]:
+    if sorted(raw) != ["make_all", "raw_fs", "split_helper", "verdict_caller"]:
         raise ControlFailure("raw filesystem call predicate matched %s" % raw)
     res["raw_fs"] = raw
     sites = audit(None, prog, list(prog.by_norm.values()), ())
@@ -114,12 +114,30 @@ def verify():
     from core import strip_generics
     from df import Flow, Mods
 
-    known = {strip_generics(b["path"]) for b in f["controls"]["bodies"] if b["name"] != "split_helper"}
+    known = {strip_generics(b["path"]) for b in f["controls"]["bodies"] if b["name"] not in ("split_helper", "tally_bump", "verdict_helper")}
     f2, rep = inline_new_helpers(f, known)
     prog2 = Program(f2)
     names = [x.name for x in prog2.by_norm.values()]
-    if "split_helper" in names or not rep or rep[0]["helper"].split("::")[-1] != "split_helper":
-        raise ControlFailure("inliner did not splice split_helper: %s" % rep)
+    spliced = sorted(r["helper"].split("::")[-1] for r in rep)
+    if "split_helper" in names or spliced != ["split_helper", "tally_bump", "verdict_helper"]:
+        raise ControlFailure("inliner did not splice the three control helpers: %s" % rep)
+    rep = [r for r in rep if r["helper"].endswith("split_helper")]
+    # a `&mut` parameter pointing at a local of the caller is re-targeted: the helper's `*acc += by` is a
+    # write to the caller's `total`
+    tc = [x for x in prog2.by_norm.values() if x.name == "tally_caller"][0]
+    wr = [s_ for b in tc.live_blocks() for s_ in tc.blocks[b]["stmts"] if s_["k"] == "assign" and tc.place_str(s_["place"]) == "total" and s_["rv"]["k"] != "use" or (s_["k"] == "assign" and tc.place_str(s_["place"]) == "total" and s_["rv"]["k"] == "use" and s_["rv"]["op"].get("k") == "move")]
+    if len(wr) < 1:
+        raise ControlFailure("inliner: the accumulator behind `&mut total` is not written as `total` in tally_caller")
+    # an `Option<bool>` verdict out of a spliced helper: the filesystem call lies under armed == true only
+    vc = [x for x in prog2.by_norm.values() if x.name == "verdict_caller"][0]
+    rmv = [(b, t) for b, t in vc.all_calls() if is_raw_fs_call(prog2.callee_of(t)[1] or prog2.callee_of(t)[0] or "", prog2.callee_of(t)[0] or "")]
+    if len(rmv) != 1:
+        raise ControlFailure("inliner: verdict_caller should contain one raw filesystem call")
+    flv = Flow(prog2, Mods(prog2), vc, lambda k: k[0] == "val" and k[1] in ("self.armed", "self.limit"))
+    wsv = [dict(w) for w in flv.at_term(rmv[0][0])]
+    if not wsv or not all(w.get(("val", "self.armed")) == (True, frozenset([1])) for w in wsv):
+        raise ControlFailure("flow: the call under Some(true) of the helper's verdict is not under self.armed == true: %s" % wsv)
+    res["inliner_by_ref_and_verdict"] = {"retargeted_writes_to_total": len(wr), "verdict_call_under": "self.armed==true"}
     sc = [x for x in prog2.by_norm.values() if x.name == "split_caller"][0]
     rm = [(b, t) for b, t in sc.all_calls() if is_raw_fs_call(prog2.callee_of(t)[1] or prog2.callee_of(t)[0] or "", prog2.callee_of(t)[0] or "")]
     if len(rm) != 1:
